@@ -139,6 +139,72 @@ func lockRegions(p *pkgInfo, body *ast.BlockStmt) []lockRegion {
 
 func collectAccesses(p *pkgInfo, fn string, body ast.Node, regions []lockRegion, initCtx bool, out *[]sharedAccess) {
 	written := map[*ast.Ident]string{}
+	// local variables that hold a copy of a package-level slice, map or pointer: writing through the
+	// local writes the shared storage (alias -> the occurrence of the package-level variable it was copied from)
+	alias := map[types.Object]*ast.Ident{}
+	refType := func(e ast.Expr) bool {
+		t := p.info.TypeOf(e)
+		if t == nil {
+			return false
+		}
+		switch t.Underlying().(type) {
+		case *types.Slice, *types.Map, *types.Pointer:
+			return true
+		}
+		return false
+	}
+	noteAlias := func(lhs, rhs ast.Expr) {
+		l, ok := lhs.(*ast.Ident)
+		if !ok {
+			return
+		}
+		r := rhs
+		for {
+			if pe, ok := r.(*ast.ParenExpr); ok {
+				r = pe.X
+				continue
+			}
+			if se, ok := r.(*ast.SliceExpr); ok {
+				r = se.X
+				continue
+			}
+			break
+		}
+		rid, ok := r.(*ast.Ident)
+		if !ok || !refType(rhs) {
+			return
+		}
+		if _, isPkg := pkgLevelVar(p, rid); !isPkg {
+			if src, ok := alias[p.info.ObjectOf(rid)]; ok { // alias of an alias
+				if obj := p.info.ObjectOf(l); obj != nil {
+					alias[obj] = src
+				}
+			}
+			return
+		}
+		if obj := p.info.ObjectOf(l); obj != nil {
+			if _, isPkgL := pkgLevelVar(p, l); !isPkgL {
+				alias[obj] = rid
+			}
+		}
+	}
+	ast.Inspect(body, func(n ast.Node) bool {
+		switch s := n.(type) {
+		case *ast.AssignStmt:
+			if len(s.Lhs) == len(s.Rhs) {
+				for i := range s.Lhs {
+					noteAlias(s.Lhs[i], s.Rhs[i])
+				}
+			}
+		case *ast.ValueSpec:
+			if len(s.Names) == len(s.Values) {
+				for i := range s.Names {
+					noteAlias(s.Names[i], s.Values[i])
+				}
+			}
+		}
+		return true
+	})
 	mark := func(e ast.Expr, kind string) {
 		for {
 			switch x := e.(type) {
@@ -147,6 +213,8 @@ func collectAccesses(p *pkgInfo, fn string, body ast.Node, regions []lockRegion,
 					if !(kind == "AAddr" && written[x] == "AAtomic") {
 						written[x] = kind
 					}
+				} else if src, ok := alias[p.info.ObjectOf(x)]; ok && kind == "AWrite" && x != src {
+					written[src] = "AWrite"
 				}
 				return
 			case *ast.SelectorExpr:
@@ -169,6 +237,11 @@ func collectAccesses(p *pkgInfo, fn string, body ast.Node, regions []lockRegion,
 		case *ast.AssignStmt:
 			if s.Tok != token.DEFINE {
 				for _, l := range s.Lhs {
+					if id, ok := l.(*ast.Ident); ok {
+						if _, isAlias := alias[p.info.ObjectOf(id)]; isAlias {
+							continue // the local itself is rebound; the shared storage is not touched
+						}
+					}
 					mark(l, "AWrite")
 				}
 			}
